@@ -21,7 +21,8 @@
    Nothing but statements closed by `exact`, each followed by Print Assumptions,
    and vm_compute examples. *)
 Require Import VV.Conc VV.ConcProofs VV.ConcCodec VV.ConcCodec2 VV.ConcCodec2Scalar.
-Require Import VV.ConcArray VV.ConcArrayDfg VV.ConcArrayElias VV.ConcArrayRleDict VV.ConcArrayBitmap.
+Require Import VV.ConcArray VV.ConcArrayDfg VV.ConcArrayElias VV.ConcArrayRleDict VV.ConcArrayBitmap
+  VV.ConcCodec2Examples.
 Require Import VV.Base VV.Tagged VV.Chained VV.Split VV.SplitFull VV.External.
 Require Import VV.Delta VV.FOR VV.EliasBits VV.Elias VV.RLE VV.Dict VV.Bitmap.
 From Coq Require Import List NArith.
@@ -446,6 +447,67 @@ Theorem C17_gamma_decode_threads_safe :
 Proof. exact gamma_decode_threads_safe. Qed.
 Print Assumptions C17_gamma_decode_threads_safe.
 
+(* varintEliasDeltaEncodeArray: the window is varintEliasDeltaMaxBytes(count) bytes
+   (C03_delta_encode_bound) *)
+Theorem C17_elias_delta_encode_threads_safe :
+  forall (ps : list io) (m0 : mem),
+  (forall p, In p ps -> N.of_nat (io_n p) < 144115188075855872) ->
+  (forall i j pi pj, i <> j -> nth_error ps i = Some pi -> nth_error ps j = Some pj ->
+     forall l, in_range (io_dst pj) (N.to_nat (elias_delta_max_bytes (N.of_nat (io_n pj)))) l ->
+       ~ in_range (io_dst pi) (N.to_nat (elias_delta_max_bytes (N.of_nat (io_n pi)))) l /\
+       ~ in_range (io_src pi) (io_n pi) l) ->
+  forall sched,
+  let ths := map (fun p => prog1 (io_src p) (io_n p) (io_dst p) elias_delta_enc_fn) ps in
+  ~ races (snd (crun sched (m0, ths))) /\
+  forall i p r, nth_error ps i = Some p ->
+    nth_error (snd (crun sched (m0, ths))) i = Some (Ret r) ->
+    let res := elias_delta_enc_fn (peek m0 (io_src p) (io_n p)) in
+    r = snd res /\
+    forall j, (j < length (fst res))%nat ->
+      fst (crun sched (m0, ths)) (io_dst p + N.of_nat j) = nth j (fst res) 0.
+Proof. exact elias_delta_encode_threads_safe. Qed.
+Print Assumptions C17_elias_delta_encode_threads_safe.
+
+(* varintEliasDeltaDecodeArray: the window is maxCount elements (C13_delta_capacity) *)
+Theorem C17_elias_delta_decode_threads_safe :
+  forall (ps : list (io * (N * nat))) (m0 : mem),
+  (forall i j pi pj, i <> j -> nth_error ps i = Some pi -> nth_error ps j = Some pj ->
+     forall l, in_range (io_dst (fst pj)) (snd (snd pj)) l ->
+       ~ in_range (io_dst (fst pi)) (snd (snd pi)) l /\
+       ~ in_range (io_src (fst pi)) (io_n (fst pi)) l) ->
+  forall sched,
+  let ths := map (fun p => prog1 (io_src (fst p)) (io_n (fst p)) (io_dst (fst p)) (elias_delta_dec_fn (snd p))) ps in
+  ~ races (snd (crun sched (m0, ths))) /\
+  forall i p r, nth_error ps i = Some p ->
+    nth_error (snd (crun sched (m0, ths))) i = Some (Ret r) ->
+    let res := elias_delta_dec_fn (snd p) (peek m0 (io_src (fst p)) (io_n (fst p))) in
+    r = snd res /\
+    forall j, (j < length (fst res))%nat ->
+      fst (crun sched (m0, ths)) (io_dst (fst p) + N.of_nat j) = nth j (fst res) 0.
+Proof. exact elias_delta_decode_threads_safe. Qed.
+Print Assumptions C17_elias_delta_decode_threads_safe.
+
+(* varintRLEEncode on shared value arrays: the window is varintRLEMaxSize(count) bytes
+   (C03_rle_bound) *)
+Theorem C17_rle_encode_threads_safe :
+  forall (ps : list io) (m0 : mem),
+  (forall p, In p ps -> 10 * N.of_nat (io_n p) + 9 < 18446744073709551616) ->
+  (forall i j pi pj, i <> j -> nth_error ps i = Some pi -> nth_error ps j = Some pj ->
+     forall l, in_range (io_dst pj) (N.to_nat (rle_max_size (N.of_nat (io_n pj)))) l ->
+       ~ in_range (io_dst pi) (N.to_nat (rle_max_size (N.of_nat (io_n pi)))) l /\
+       ~ in_range (io_src pi) (io_n pi) l) ->
+  forall sched,
+  let ths := map (fun p => prog1 (io_src p) (io_n p) (io_dst p) rle_enc_fn) ps in
+  ~ races (snd (crun sched (m0, ths))) /\
+  forall i p r, nth_error ps i = Some p ->
+    nth_error (snd (crun sched (m0, ths))) i = Some (Ret r) ->
+    let res := rle_enc_fn (peek m0 (io_src p) (io_n p)) in
+    r = snd res /\
+    forall j, (j < length (fst res))%nat ->
+      fst (crun sched (m0, ths)) (io_dst p + N.of_nat j) = nth j (fst res) 0.
+Proof. exact rle_encode_threads_safe. Qed.
+Print Assumptions C17_rle_encode_threads_safe.
+
 (* varintRLEDecode on shared encodings: the window is maxCount elements
    (C13_rle_decode_cap_any_input) *)
 Theorem C17_rle_decode_threads_safe :
@@ -753,3 +815,62 @@ Example C17_bitmap_to_array_example :
   snd c = [Ret [1; 3]; Ret [1; 3]; Ret [0]] /\
   peek (fst c) 100000 4 = [1; 2; 3; 0] /\ peek (fst c) 200000 4 = [1; 2; 3; 0] /\ peek (fst c) 300000 4 = [0; 0; 0; 0].
 Proof. vm_compute. repeat split; reflexivity. Qed.
+
+Example C17_elias_delta_encode_example :
+  let ths := map (fun p => prog1 (io_src p) (io_n p) (io_dst p) elias_delta_enc_fn) [mk_io 0 3 100; mk_io 1 2 200] in
+  let c := crun ([1; 0; 1; 1; 0]%nat ++ rr 40 2) (mem_list [5; 1; 9], ths) in
+  snd c = [Ret [1; 2; 14]; Ret [1; 2; 9]] /\
+  peek (fst c) 100 3 = [108; 132; 0] /\ peek (fst c) 200 3 = [144; 128; 0] /\
+  elias_delta_max_bytes 3 = 29 /\ elias_delta_max_bytes 2 = 19.
+Proof. vm_compute. repeat split; reflexivity. Qed.
+
+Example C17_elias_delta_decode_example :
+  let ths := map (fun p => prog1 (io_src (fst p)) (io_n (fst p)) (io_dst (fst p)) (elias_delta_dec_fn (snd p)))
+               [(mk_io 0 2 100, (14, 3%nat)); (mk_io 0 2 200, (14, 2%nat))] in
+  let c := crun ([1; 0; 1; 1; 0]%nat ++ rr 20 2) (mem_list [108; 132], ths) in
+  snd c = [Ret [3]; Ret [2]] /\ peek (fst c) 100 4 = [5; 1; 9; 0] /\ peek (fst c) 200 4 = [5; 1; 0; 0].
+Proof. vm_compute. repeat split; reflexivity. Qed.
+
+(* RLE encoders on overlapping shared inputs [4;4;4;9;9] and [4;9;9] *)
+Example C17_rle_encode_example :
+  let ths := map (fun p => prog1 (io_src p) (io_n p) (io_dst p) rle_enc_fn) [mk_io 0 5 100; mk_io 2 3 200] in
+  let c := crun ([1; 0; 1; 1; 0]%nat ++ rr 20 2) (mem_list [4; 4; 4; 9; 9], ths) in
+  snd c = [Ret [4]; Ret [4]] /\ peek (fst c) 100 5 = [3; 4; 2; 9; 0] /\ peek (fst c) 200 5 = [1; 4; 2; 9; 0] /\
+  rle_max_size 5 = 59.
+Proof. vm_compute. repeat split; reflexivity. Qed.
+
+(* the hypotheses are satisfiable: for three of the configurations above the
+   placement hypotheses are proved and the theorems applied, so the results
+   hold under EVERY schedule (a scalar family, a one-input array family with a
+   validity condition, the two-input family with the shared dictionary) *)
+Example C17_external_example_all_schedules : forall sched,
+  let encs := [(100, 65536); (200, 255)] in
+  let decs := [(0, 2%nat); (0, 3%nat)] in
+  let ths :=
+    map (fun dx => write_bytes (fst dx) (ext_put (snd dx)) (Ret [N.of_nat (ext_width (snd dx))])) encs ++
+    map (fun sw => read_bytes (fst sw) (snd sw) [] (fun bs => Ret (ret_opt (ext_get bs (snd sw))))) decs in
+  let c := crun sched (mem_list [52; 18; 1; 0; 0; 0; 0; 0; 0; 7], ths) in
+  ~ races (snd c) /\
+  (forall r, nth_error (snd c) 0 = Some (Ret r) -> r = [3] /\ fst c 100 = 0 /\ fst c 102 = 1) /\
+  (forall r, nth_error (snd c) 2 = Some (Ret r) -> r = [1; 4660]) /\
+  (forall r, nth_error (snd c) 3 = Some (Ret r) -> r = [1; 70196]).
+Proof. exact external_example_all_schedules. Qed.
+
+Example C17_for_encode_example_all_schedules : forall sched,
+  let ps := [(mk_io 0 3 100, mk_for_meta 7 9 2 3 6 1); (mk_io 0 3 200, mk_for_meta 0 65535 65535 3 9 2)] in
+  let ths := map (fun p => prog1 (io_src (fst p)) (io_n (fst p)) (io_dst (fst p)) (for_enc_fn (snd p))) ps in
+  let c := crun sched (mem_list [7; 8; 9], ths) in
+  ~ races (snd c) /\
+  (forall r, nth_error (snd c) 0 = Some (Ret r) -> r = [1; 6] /\ fst c 100 = 7 /\ fst c 105 = 2) /\
+  (forall r, nth_error (snd c) 1 = Some (Ret r) -> r = [1; 9] /\ fst c 200 = 0 /\ fst c 207 = 9).
+Proof. exact for_encode_example_all_schedules. Qed.
+
+Example C17_dict_lookup_example_all_schedules : forall sched,
+  let ps := [mk_dio 0 3 10 4 100; mk_dio 0 3 20 2 200] in
+  let ths := map (fun p => prog2 (dio_dict p) (dio_dn p) (dio_src p) (dio_n p) (dio_dst p) dict_lookup_fn) ps in
+  let m0 := mem_list ([10; 20; 30] ++ repeat 0 7 ++ [2; 0; 1; 7] ++ repeat 0 6 ++ [1; 1]) in
+  let c := crun sched (m0, ths) in
+  ~ races (snd c) /\
+  (forall r, nth_error (snd c) 0 = Some (Ret r) -> r = [4] /\ fst c 100 = 30 /\ fst c 103 = 0) /\
+  (forall r, nth_error (snd c) 1 = Some (Ret r) -> r = [2] /\ fst c 201 = 20).
+Proof. exact dict_lookup_example_all_schedules. Qed.
